@@ -863,13 +863,9 @@ def registry(ctx, d):
             with ctx.under_test("TransformKey()"):
                 key = _mk_key(s_sp, d_sp, q["kform"])
             kind, got = _outcome(lambda: _call(td, key, call, arg_p, arg_q, Marg))
-            if not strict:
-                if kind == "exc" and isinstance(got, KeyError):
-                    ctx.cls("identity_mixed_case:keyerror")
-                    continue
-                ctx.cls("identity_mixed_case:answered")
-            else:
-                ctx.cls("query:identity")
+            # (mixed-case spellings such as ("BASE_LINK", FrameID.BASE_LINK) are asserted like every other X->X query:
+            #  names and enums are interchangeable as keys; the library was repaired accordingly, see known_findings.json)
+            ctx.cls("query:identity" if strict else "identity_mixed_case")
             if kind == "exc":
                 ctx.violate(f"crash:identity-query:{type(got).__name__}", f"{what} raised {type(got).__name__}: {got}")
                 continue
